@@ -29,7 +29,7 @@ class Gen:
     def declare(self, ind=0):
         self.n += 1
         v = "u%d" % self.n
-        k = self.rng.choice([2, 2, 3])
+        k = self.rng.choice([2, 2, 3, 3, 4])
         cs = self.rng.sample(ORDER, k)
         if "NilClass" not in cs and self.rng.random() < 0.5:
             cs[-1] = "NilClass"
@@ -41,12 +41,12 @@ class Gen:
         self.vars[v] = list(cs)
         return v
 
-    def atom(self, env):
+    def atom(self, env, kind=None):
         """(text, var, admitted classes, rejected classes)"""
         rng = self.rng
         v = rng.choice(sorted(k for k, c in env.items() if len(c) > 1))
         cs = env[v]
-        kind = rng.choice(["nil", "notnil", "isa", "isa"])
+        kind = kind or rng.choice(["nil", "notnil", "isa", "isa", "notisa"])
         if kind in ("nil", "notnil") and "NilClass" in cs:
             yes = ["NilClass"]
             no = [c for c in cs if c != "NilClass"]
@@ -59,6 +59,8 @@ class Gen:
             yes = [x for x in cs if x == "NilClass"]
             return "%s.nil?" % v, v, yes, [x for x in cs if x != "NilClass"]
         c = rng.choice(cands)
+        if kind == "notisa":
+            return "!%s.is_a?(%s)" % (v, c), v, [x for x in cs if x != c], [c]
         return "%s.is_a?(%s)" % (v, c), v, [c], [x for x in cs if x != c]
 
     def filler(self, ind, env, depth):
@@ -100,7 +102,13 @@ class Gen:
         kw = rng.choice(["if", "if", "unless"])
         atoms = [self.atom(env)]
         rest = {k: v for k, v in env.items() if k != atoms[0][1] and len(v) > 1}
-        if self.chains and rng.random() < 0.3 and rest:
+        first_then = [c for c in env[atoms[0][1]] if c in atoms[0][2]]
+        if self.chains and rng.random() < 0.2 and len(first_then) > 1:
+            # the same variable tested twice in one chain (`!x.nil? && !x.is_a?(Integer)`): two restore steps for one variable
+            same = "notisa" if atoms[0][0].startswith("!") else "isa"
+            atoms.append(self.atom({atoms[0][1]: first_then}, same if rng.random() < 0.7 else None))
+            self.count("chain-same-variable")
+        elif self.chains and rng.random() < 0.3 and rest:
             atoms.append(self.atom(rest))
         cond = " && ".join(a[0] for a in atoms)
         self.emit("%s %s" % (kw, cond), ind)
@@ -119,16 +127,21 @@ class Gen:
                 then_env = dict(env)      # unless (A && B): the body admits everything
         body_env = then_env
         chain_neg = "and-chain-negative-branch" if len(atoms) > 1 else None
+        # one variable tested twice in a chain, once negated and once not (K34)
+        mixed = "chain-same-variable-mixed-polarity" if len(atoms) > 1 and atoms[0][1] == atoms[1][1] and \
+            atoms[0][0].startswith("!") != atoms[1][0].startswith("!") else None
         outer_taint = self.taint
         if kw == "unless" and chain_neg:
             self.taint = self.taint or chain_neg
+        elif mixed:
+            self.taint = self.taint or mixed
         if self.unrelated:
             self.filler(ind + 1, body_env, depth)
-        self.probe(ind + 1, body_env, chain_neg if kw == "unless" else None)
+        self.probe(ind + 1, body_env, chain_neg if kw == "unless" else mixed)
         if self.nesting and depth < 2 and rng.random() < 0.35:
             if any(len(v) > 1 for v in body_env.values()):
                 self.conditional(ind + 1, body_env, depth + 1)
-                self.probe(ind + 1, body_env, chain_neg if kw == "unless" else None)          # undone after the inner conditional
+                self.probe(ind + 1, body_env, chain_neg if kw == "unless" else mixed)          # undone after the inner conditional
                 self.count("nested")
         self.taint = outer_taint
         if kw == "if" and self.elsif and len(atoms) == 1 and rng.random() < 0.3 and any(len(v) > 1 for v in else_env.values()):
